@@ -96,8 +96,13 @@ fn create_node(m: &mut Model, st: &mut Stats, pat: &NodePat, props: Vec<(String,
     id
 }
 
-fn create_rel(m: &mut Model, st: &mut Stats, s: Iid, ty: &str, d: Iid, props: Vec<(String, crate::pv::PV)>) -> RelId {
+fn create_rel(m: &mut Model, st: &mut Stats, s: Iid, ty: &str, d: Iid, props: Vec<(String, crate::pv::PV)>) -> R<RelId> {
     let key = (s, ty.to_string(), d);
+    if !props.is_empty() && m.edges.get(&key).copied().unwrap_or(0) > 0 {
+        // the new parallel instance overwrites the key's shared property map; whether other rows
+        // of the same statement read the old or the new values is order dependent
+        return unsup("CREATE with properties of a further parallel instance of an existing relationship key");
+    }
     let c = m.edges.entry(key.clone()).or_insert(0);
     let inst = *c;
     *c += 1;
@@ -115,7 +120,7 @@ fn create_rel(m: &mut Model, st: &mut Stats, s: Iid, ty: &str, d: Iid, props: Ve
     }
     st.rels_created += 1;
     st.created_keys.push(key);
-    RelId { src: s, ty: ty.to_string(), dst: d, inst }
+    Ok(RelId { src: s, ty: ty.to_string(), dst: d, inst })
 }
 
 fn bound_node(row: &Row, var: &Option<String>) -> R<Option<Iid>> {
@@ -173,7 +178,7 @@ fn create_path(m: &mut Model, st: &mut Stats, params: &BTreeMap<String, RV>, row
             }
         };
         let props = eval_props(m, params, &r, &rp.props, merge)?;
-        let rel = create_rel(m, st, s, &rp.types[0], d, props);
+        let rel = create_rel(m, st, s, &rp.types[0], d, props)?;
         if let Some(v) = &rp.var {
             r.insert(v.clone(), RV::Rel(rel));
         }
